@@ -243,6 +243,21 @@ def oracle_large(case, ctx):
     decide(ctx, case, fn, p, label, env, s0, ['long' if max(p['shape']) >= 31 else 'short', 'adversarial_rng' if 'mode' in r else 'seeded_rng'])
 
 
+def enum_sweep(tier, shard, nshards):
+    """every (length, number of rooms) pair up to the bound, rooms along one dimension; agent and exit at the extreme candidates"""
+    top = 72 if tier == 'quick' else 160
+    i = 0
+    for L in range(5, top + 1):
+        for r in range(1, min(16, (L - 1) // 2) + 1):
+            for transposed in (False, True):
+                i += 1
+                if i % nshards != shard:
+                    continue
+                shape, layout = ([L, 5], [r, 1]) if not transposed else ([5, L], [1, r])
+                yield {'fn': 'rooms', 'p': {'shape': shape, 'layout': layout},
+                       'rng': {'mode': 'high' if (L + r) % 2 else 'low', 'prefix': 200 if i % 3 else 0, 'salt': i % 8}}
+
+
 CHECKS = [
     Check('winnable', oracle, strategy=strat, examples={'quick': 700, 'thorough': 2500}, shards={'quick': 8, 'thorough': 16},
           rule='8 reset functions x parameters (as in C13) x seeds; a model plan is executed on the real functional_step; otherwise exhaustive BFS over the real step decides',
@@ -250,4 +265,7 @@ CHECKS = [
     Check('long_layouts', oracle_large, strategy=strat_large, examples={'quick': 240, 'thorough': 1500}, shards={'quick': 8, 'thorough': 16},
           rule='one dimension up to 72 (thorough 130) with up to 14 rooms / 9 rivers along it, the other small; seeded and adversarial generators (agent/exit in the extreme candidate cells); same decision as (a)',
           required=['long', 'adversarial_rng', 'seeded_rng', 'rooms:won', 'crossing:won']),
+    Check('layout_sweep', oracle_large, enumerate=enum_sweep, shards={'quick': 16, 'thorough': 16}, exhaustive=True,
+          rule='rooms: every length 5..72 (thorough 160) x every number of rooms 1..16 that fits, both orientations, adversarial generator: winnable',
+          required=['long', 'rooms:won']),
 ]
